@@ -17,7 +17,7 @@ THEOREMS = [
     "C15_unpack_compositional_optional",
     "C15_frame_partial", "C15_frame_creation_extends", "C15_frame_history",
     "C15_lookalike_refuted", "C15_subclass_refuted", "C15_frame_subclass_refuted",
-    "C15_fieldless_member_refuted", "C15_dialect_priority_refuted",
+    "C15_fieldless_member_refuted", "C15_dialect_priority_refuted", "C15_union_order_observable",
 ]
 
 CASE_TYPE = "env * (bool * mode * option bool) * ty * val * res val"
@@ -400,7 +400,7 @@ def oracle_entry_points(ctx, sc, mod, src, cls_name, v, conforming_kind):
         if outs[k] != outs[ref]:
             a_mix = ("to_dict" in ref)
             sig = {"kind": "unclassified"}
-            if not compat:
+            if not compat and outs[ref][0] == "ok" and outs[k][0] == "ok":
                 sig = {"kind": "dialect-priority"}       # documented precedence, not a finding: skipped
             elif outs[ref][0] == "ok" and outs[k][0] == "ok" and a_mix:
                 sig = signature_of(sc, ("data", cls_name), v, outs[ref], outs[k])
@@ -781,7 +781,13 @@ def run(ctx: vlib.Ctx):
         "Config.serialize_by_alias, optional dialect with ADD_DIALECT_SUPPORT everywhere) + root types over "
         "int/str/date/List/Dict[str,.]/Tuple/Optional/Union/dataclass + generated values (exact classes; strict-subclass "
         "instances at a low rate; unrelated instances only for the correspondence); distinct = (scenario, root type, value, "
-        "entry point set); non-trivial = at least one dataclass position")
+        "entry point set); non-trivial = at least one dataclass position. Further dimensions: look-alike 'twin' classes and all "
+        "member permutations of their unions in sequences of one-shot calls; Config.lazy_compilation / allow_postponed_evaluation "
+        "(inside the Coq-tied scenarios) and 'wide' scenarios (omit_none, omit_default, sort_keys, forbid_extra_keys, "
+        "allow_deserialization_not_by_alias, kw_only + defaults, ADD_SERIALIZATION_CONTEXT, strategy dialects) for the oracles; "
+        "format family: msgpack/orjson/json/yaml/toml mixins vs Encoder/Decoder/one-shot functions over int/str/bool/date/datetime/"
+        "time/UUID/bytes/bytearray with user dialects (call-time or Config.dialect) whose strategies and options overlap the "
+        "format's built-in dialect")
     ctx.trusted += [
         "C15: harness/c15lib.py materialiser (Python source of the class table and the Coq env denote the same schema; "
         "predicted_has_method = which plain classes own __mashumaro_to_dict__), canonicaliser and exception reduction "
@@ -792,6 +798,12 @@ def run(ctx: vlib.Ctx):
         "C15 frame model: the state is the class table with the per-class flag 'owns __mashumaro_to_dict__'; codec creation is "
         "modelled as leaving the table untouched (holders are private to the codec) - the real holders are exercised only by "
         "the frame oracle",
+    ]
+    ctx.trusted += [
+        "C15 format family / lazy compilation / Config options other than serialize_by_alias are outside the Coq model: covered by "
+        "the oracles only (format libraries msgpack, orjson, json, yaml, tomli_w/tomllib are oracles)",
+        "typing interns parametrised generics by equal arguments (List[Union[A,B]] is List[Union[B,A]]): modules in which the "
+        "type objects do not have the generated member order are dropped (stated predicate module_matches_scenario)",
     ]
     ctx.assumptions += [
         "C15_agree_partial: every dataclass instance has exactly the annotated class (union: one member's class), unions "
@@ -891,9 +903,9 @@ def run(ctx: vlib.Ctx):
             continue            # not a conforming value: outside the property (kept for the correspondence only)
         sc = cm.sc
         compat = sc.dialect in (None, 'unset', 'strategy') or all(q.by_alias is None or q.by_alias == sc.dialect for q in sc.classes)
-        if not compat and not in_dom:
+        if not compat and not in_dom and a[0] == "ok" and b[0] == "ok":
             ctx.hist("agree_domain", "skipped:dialect-priority")
-            continue            # documented precedence of call dialect vs default dialect
+            continue            # documented precedence of call dialect vs default dialect (keys differ, both succeed)
         sig = {"kind": "in-theorem-domain"} if in_dom else signature_of(sc, sc.roots[cm.i], cm.v, cm.exp, cc.exp)
         ctx.fail(f"mixin path and codec path disagree for {L.py_ty(sc.roots[cm.i])}: W(f=v).to_dict()['f'] = {show(cm.exp)} "
                  f"but BasicEncoder(T).encode(v) = {show(cc.exp)}",
@@ -948,7 +960,7 @@ def run(ctx: vlib.Ctx):
 
     # ---------------- oracle 4: format mixins vs format codecs under user dialects (outside the Coq model)
     from harness import c15fmt
-    c15fmt.run_format_family(ctx, ctx.budget(30, 200))
+    c15fmt.run_format_family(ctx, ctx.budget(60, 300))
 
     # ---------------- a broken tie aims the search at the disagreement
     if corr_bad and not ctx.failures:
